@@ -2,10 +2,12 @@
 from .common import pipeline_for, combined
 
 LEVEL = 'other'
-RULES = ('M1', 'M2', 'M3', 'M4', 'M5', 'R01.b', 'R01.c', 'R04.a', 'R04.b', 'R04.c', 'R04.d', 'R04.e', 'S-OWN', 'R03.d', 'R04.f', 'R04.g', 'R15.b', 'R14.t', 'R07.e', 'R07.g')
+RULES = ('M1', 'M2', 'M3', 'M4', 'M5', 'R01.b', 'R01.c', 'R04.a', 'R04.b', 'R04.c', 'R04.d', 'R04.e', 'S-OWN', 'R03.d', 'R04.f', 'R04.g', 'R15.b', 'R14.t', 'R07.e', 'R07.g', 'R04.n')
 
 
 def run(prog, rec, tier):
+    from . import static_rules as _sr
+    _sr.assert_conditions(prog, rec, 'R04.n', 'R04.n@kernel::assert-conditions-have-no-effects', ('kernel', 'main.cpp', 'valget'))
     combined(prog, rec, tier, RULES, driver=('singleton', 'sequence', 'layout', 'reader'), hash=('drivers', 'buffer', 'buffer_sim'), pipe=True, monitor=True, spawn=True,
                  explanation='Monitor discipline on the token class (writes under the mutex, waits in re-testing loops with computed '
                  'leave sets, notify_all on the matching condition variable before the mutex is released, leave sets reachable), '
